@@ -16,102 +16,102 @@ import (
 
 // CallSpec is one generated call.
 type CallSpec struct {
-	Tag      string
-	From     *Node
-	To       string // host:port ("" = use the sub-channel's peer list)
-	Service  string
-	Method   string
-	Timeout  time.Duration
-	Mode     string // handler behaviour: echo, apperr, syserr, blackhole, partialerr, slowread
-	Delay    time.Duration
-	Code     int
-	Msg      string
-	Pad2     int // size of the padding part of request arg2
-	Len3     int // size of request arg3
-	Rs2, Rs3 int // response padding/arg3 sizes (-1: mirror the request)
-	WritePat int // 0 single write, 1 small random writes, 2 byte-wise (bounded), 3 random writes + flushes
-	ReadPat  int // 0 read to EOF, 1 exact length then Close, 2 small random reads
-	ReadPat3 int // pattern for arg3 when it differs from arg2's: value-1 (0 = same as ReadPat)
+	Tag         string
+	From        *Node
+	To          string // host:port ("" = use the sub-channel's peer list)
+	Service     string
+	Method      string
+	Timeout     time.Duration
+	Mode        string // handler behaviour: echo, apperr, syserr, blackhole, partialerr, slowread
+	Delay       time.Duration
+	Code        int
+	Msg         string
+	Pad2        int           // size of the padding part of request arg2
+	Len3        int           // size of request arg3
+	Rs2, Rs3    int           // response padding/arg3 sizes (-1: mirror the request)
+	WritePat    int           // 0 single write, 1 small random writes, 2 byte-wise (bounded), 3 random writes + flushes
+	ReadPat     int           // 0 read to EOF, 1 exact length then Close, 2 small random reads
+	ReadPat3    int           // pattern for arg3 when it differs from arg2's: value-1 (0 = same as ReadPat)
 	CancelAfter time.Duration // >0: the caller cancels its context after this long
 	// >0: the caller's context is cancelled at the very instant the handler is about to
 	// write its response (1 = before arg2, 2 = before the last argument, 3 = right after
 	// the response is complete): the cancel frame and the response's last frame travel
 	// towards each other
 	CancelOnResponse int
-	LateRead    time.Duration // >0: the handler is busy this long between reading arg2 and reading arg3
-	ReadPause   time.Duration // >0: the caller is busy this long between writing the request and reading the response
-	ChunkPause  time.Duration // >0: the caller reads the response piecewise and is busy this long after each piece
-	Opts     *tchannel.CallOptions
-	Via      string // description of the path (direct / relay name)
-	NoCheck  bool   // data oracle not applicable (e.g. hostile server)
+	LateRead         time.Duration // >0: the handler is busy this long between reading arg2 and reading arg3
+	ReadPause        time.Duration // >0: the caller is busy this long between writing the request and reading the response
+	ChunkPause       time.Duration // >0: the caller reads the response piecewise and is busy this long after each piece
+	Opts             *tchannel.CallOptions
+	Via              string // description of the path (direct / relay name)
+	NoCheck          bool   // data oracle not applicable (e.g. hostile server)
 }
 
 // HandlerObs is what the handler observed for a call.
 type HandlerObs struct {
-	Entered    bool
-	EnterEv    int64
-	EnterAt    time.Duration
-	Caller     string
-	Service    string
-	Method     string
-	Format     string
-	ShardKey   string
-	RoutingKey string
-	RoutingDelegate string
-	HasDeadline bool
-	RemainingAtEntry time.Duration // ctx deadline minus handler entry time
-	Deadline   time.Duration // relative to run start
-	Arg2OK, Arg3OK bool
-	ArgsRead   bool // the handler read both arguments to the end without error
-	Read2, Read3 int // argument bytes handed to the handler (also when a read failed)
-	ReadErr    error
-	RespErr    error
-	CtxDoneAt  time.Duration // 0 = not observed
-	CtxErr     error
-	Waiting    bool          // the handler entered its delay
-	DelayEnd   time.Duration // the delay elapsed at (0 = the context ended first)
-	WaitedUntil time.Duration
+	Entered                                     bool
+	EnterEv                                     int64
+	EnterAt                                     time.Duration
+	Caller                                      string
+	Service                                     string
+	Method                                      string
+	Format                                      string
+	ShardKey                                    string
+	RoutingKey                                  string
+	RoutingDelegate                             string
+	HasDeadline                                 bool
+	RemainingAtEntry                            time.Duration // ctx deadline minus handler entry time
+	Deadline                                    time.Duration // relative to run start
+	Arg2OK, Arg3OK                              bool
+	ArgsRead                                    bool // the handler read both arguments to the end without error
+	Read2, Read3                                int  // argument bytes handed to the handler (also when a read failed)
+	ReadErr                                     error
+	RespErr                                     error
+	CtxDoneAt                                   time.Duration // 0 = not observed
+	CtxErr                                      error
+	Waiting                                     bool          // the handler entered its delay
+	DelayEnd                                    time.Duration // the delay elapsed at (0 = the context ended first)
+	WaitedUntil                                 time.Duration
 	DelayDone, CtxDone, CtxDoneInWait, WaitOver bool
-	StallInWait time.Duration
-	WaitFrom    time.Duration // when the handler's wait (delay vs context) began
-	ExitEv     int64
-	Entries    int // number of times a handler was entered for this tag
-	Node       string
+	StallInWait                                 time.Duration
+	WaitFrom                                    time.Duration // when the handler's wait (delay vs context) began
+	ExitEv                                      int64
+	Entries                                     int // number of times a handler was entered for this tag
+	Node                                        string
 }
 
 // CallRec is the record of one call: what was asked, what came back, what the
 // handler saw.
 type CallRec struct {
-	Spec      CallSpec
-	BeginEv   int64
-	TIn, TOut time.Duration // BeginCall invoked / returned
-	BeginErr  error
-	EndEv     int64
-	EndAt     time.Duration
-	Deadline  time.Duration // absolute (since run start)
-	StallIn   time.Duration // scheduler stall time injected between begin and end
-	Err       error
-	AppErr    bool
-	Res2, Res3 []byte
-	Done      bool
-	H         HandlerObs
-	Req2, Req3 []byte
-	Req2Dest  []byte            // arg2 as the destination must see it (differs from Req2 when relays append)
-	Req2Hop   map[string][]byte // arg2 as emitted by a given relay node
-	wantRes2, wantRes3 []byte
-	Cancelled bool
-	CancelAt  time.Duration
-	CancelEv  int64
-	Stall0    time.Duration // total injected stall time when the call began
-	WroteEv   int64         // the request was written completely (both argument writers closed); 0 = never
-	WroteAt   time.Duration
-	Appended  bool // a relay host appended key/values to arg2
-	AfterClose bool  // begun after Close returned on the calling node (must fail locally)
-	TOutEv    int64 // event number when BeginCall returned
-	CorruptReq, CorruptRes bool // a byte of the request / response was altered in transit
-	Read2, Read3 int // response argument bytes handed to the caller (also when a read failed)
-	cancelFn  func()
-	Paused    time.Duration // time the CALLER spent busy in its own code between library calls (ReadPause, ChunkPause)
+	Spec                   CallSpec
+	BeginEv                int64
+	TIn, TOut              time.Duration // BeginCall invoked / returned
+	BeginErr               error
+	EndEv                  int64
+	EndAt                  time.Duration
+	Deadline               time.Duration // absolute (since run start)
+	StallIn                time.Duration // scheduler stall time injected between begin and end
+	Err                    error
+	AppErr                 bool
+	Res2, Res3             []byte
+	Done                   bool
+	H                      HandlerObs
+	Req2, Req3             []byte
+	Req2Dest               []byte            // arg2 as the destination must see it (differs from Req2 when relays append)
+	Req2Hop                map[string][]byte // arg2 as emitted by a given relay node
+	wantRes2, wantRes3     []byte
+	Cancelled              bool
+	CancelAt               time.Duration
+	CancelEv               int64
+	Stall0                 time.Duration // total injected stall time when the call began
+	WroteEv                int64         // the request was written completely (both argument writers closed); 0 = never
+	WroteAt                time.Duration
+	Appended               bool  // a relay host appended key/values to arg2
+	AfterClose             bool  // begun after Close returned on the calling node (must fail locally)
+	TOutEv                 int64 // event number when BeginCall returned
+	CorruptReq, CorruptRes bool  // a byte of the request / response was altered in transit
+	Read2, Read3           int   // response argument bytes handed to the caller (also when a read failed)
+	cancelFn               func()
+	Paused                 time.Duration // time the CALLER spent busy in its own code between library calls (ReadPause, ChunkPause)
 }
 
 // completedNormally: the call ended with its response or with the error its
@@ -647,7 +647,9 @@ func (h *echoHandler) Handle(ctx context.Context, call *tchannel.InboundCall) {
 		tag = cmd["tag"]
 	}
 	w.event("handler-enter", "%s on %s err=%v", tag, h.n.Name, errStr(err))
-	defer func() { obs.ExitEv = w.event("handler-exit", "%s on %s resperr=%v", tag, h.n.Name, errStr(obs.RespErr)) }()
+	defer func() {
+		obs.ExitEv = w.event("handler-exit", "%s on %s resperr=%v", tag, h.n.Name, errStr(obs.RespErr))
+	}()
 	if err != nil {
 		obs.ReadErr = err
 		h.reportReadError(call, tag, err)
